@@ -1,30 +1,173 @@
 """Type-directed generator of small samlang programs for the scope/inference properties (C13, C15).
 
 Everything of value type is `int`, so every inferred type is known by construction: `let` bindings
-and lambda parameters are `int`, the generic `Main.id`/`Main.ap` are instantiated at `int`.
-Programs are trees (nested tuples) so that the C13 rewrites can be applied structurally and the
-text re-rendered.  All local names are unique inside a function (the implementation rejects any
-rebinding, see Model/Scope.lean), fields/methods/classes use disjoint name pools.
+and lambda parameters are `int`, every generic callee is instantiated at `int`.
+Programs are trees (nested tuples) so that the C13 rewrites can be applied structurally (at single
+sites and subsets of sites) and the text re-rendered.  All local names are unique inside a function
+(the implementation rejects any rebinding, see Model/Scope.lean); struct-shorthand binders reuse
+the field names `fa`/`fb` on purpose.
+
+Tree shapes
+  ("lit", n) ("var", x) ("raw", text) ("raw2", prefix, [args], suffix) ("bin", op, a, b)
+  ("if", c, a, b) ("iflet", pat, scrut, a, b) ("tuple", [es]) ("block", [("let", pat, e, ann)], e)
+  ("match", scrut, [(pat, e)]) ("lam", [(x, annotated)], body) ("call", f, [args])
+  ("gcall", name, [args], explicit_targs, ntparams, prefix_or_None)   -- ntparams=0: not a site
+  ("post", e, suffix) ("paren", e) ("wrap", e)
+  patterns: ("pid", x) ("pwild",) ("ptuple", [ps]) ("pobj", [(field, None | subpattern)])
+            ("pvar", Ctor, [ps]) ("por", [ps])
 """
 
 LIB = {
     "Box": "class Box(val fa: int, val fb: int) {\n  method sum(): int = this.fa + this.fb\n  function mk(x: int): Box = Box.init(x, x + 1)\n}",
     "Sh": "class Sh(Ci(int), Re(int, int), Em) {\n  method area(): int = match this { Ci(r) -> r * r, Re(w, h) -> w * h, Em -> 0 }\n}",
     "Opt": "class Opt(No, So(int)) {\n  function of(x: int): Opt = if x % 2 == 0 { Opt.So(x) } else { Opt.No() }\n}",
+    "Fig": "class Fig(Ca(Box), Sq(Box), Dt) {\n  function of(x: int, y: int): Fig = if x % 3 == 0 { Fig.Ca(Box.init(x, y)) } else { if x % 3 == 1 { Fig.Sq(Box.init(y, x)) } else { Fig.Dt() } }\n}",
+    "Wr": "class Wr(Wa(Sh), Wb(int)) {\n  function of(x: int): Wr = if x % 4 == 0 { Wr.Wb(x) } else { if x % 4 == 1 { Wr.Wa(Sh.Ci(x)) } else { if x % 4 == 2 { Wr.Wa(Sh.Re(x, 1)) } else { Wr.Wa(Sh.Em()) } } }\n}",
+    "Cell": "class Cell<T>(val v: T) {\n  method <R> map(f: (T) -> R): Cell<R> = Cell.init(f(this.v))\n  method get(): T = this.v\n}",
 }
+LIB_ORDER = ["Box", "Sh", "Opt", "Fig", "Wr", "Cell"]
+
+HELPERS = [
+    "  function <T> id(x: T): T = x",
+    "  function ap(g: (int) -> int, x: int): int = g(x)",
+    "  function inc(x: int): int = x + 1",
+    "  function <T> comb(f: (int, T) -> int, s: T): int = f(20, s)",
+    "  function <A, B> app2(f: (A, B) -> int, a: A, b: B): int = f(a, b)",
+    "  function <T> twice(f: (T) -> T, x: T): T = f(f(x))",
+    "  function <A, B> pipe(x: A, f: (A) -> B): B = f(x)",
+]
+
+
+def gc(name, args, ntp=0, prefix=None, explicit=False):
+    return ("gcall", name, args, explicit, ntp, prefix)
 
 
 class Gen:
-    def __init__(self, rng, broken=None):
+    def __init__(self, rng, broken=None, rich_patterns=True):
         self.rng = rng
         self.n = 0
         self.broken = broken      # None | 'unbound' | 'dup' | 'type'
         self.broke = False
         self.forms = set()
+        self.rich = rich_patterns
 
     def fresh(self):
         self.n += 1
         return f"v{self.n}"
+
+    # -------- patterns
+    def binder_names(self, env, k):
+        """k names for pattern binders: fresh ones, or the field names fa/fb (struct shorthand)"""
+        out = []
+        for _ in range(k):
+            c = self.rng.below(3)
+            cand = "fa" if c == 0 else "fb" if c == 1 else None
+            if cand and cand not in env and cand not in out:
+                out.append(cand)
+            else:
+                out.append(self.fresh())
+        return out
+
+    def box_pat(self, names):
+        """struct pattern over Box binding exactly `names` (<= 2): shorthand where the binder is the
+        field's own name, `field as name` otherwise, `field as _` for the rest"""
+        fields = self.rng.shuffle(["fa", "fb"])
+        assign = {}
+        rest = list(names)
+        # a binder named like a field goes to that field (shorthand) most of the time
+        for n in list(rest):
+            if n in ("fa", "fb") and n not in assign and self.rng.chance(3, 4):
+                assign[n] = None
+                rest.remove(n)
+        for f in fields:
+            if f not in assign and rest:
+                n = rest.pop()
+                assign[f] = None if n == f else ("pid", n)
+        els = []
+        for f in ["fa", "fb"]:
+            if f in assign:
+                els.append((f, assign[f]))
+                if assign[f] is None:
+                    self.forms.add("struct-shorthand")
+            else:
+                els.append((f, ("pwild",)))
+        return ("pobj", els)
+
+    def sh_alts(self, name):
+        """two alternatives over Sh binding `name`"""
+        re = ("pvar", "Re", self.rng.pick([[("pid", name), ("pwild",)], [("pwild",), ("pid", name)]]))
+        return [("pvar", "Ci", [("pid", name)]), re]
+
+    def or_match(self, env, d):
+        """match with an or-pattern case; returns the expression"""
+        r = self.rng
+        kind = r.below(6) if self.rich else 0
+        if kind == 0:       # variants of Sh
+            self.forms.add("or-pattern")
+            x = self.fresh()
+            alts = r.shuffle(self.sh_alts(x))
+            return ("match", self.sh_expr(env, d),
+                    [(("por", alts), self.int_expr(env + [x], d)), (("pvar", "Em", []), self.int_expr(env, d))])
+        if kind == 1:       # struct patterns (shorthand / as) under the alternatives
+            self.forms.add("or-pattern-struct")
+            names = self.binder_names(env, r.range(1, 2))
+            alts = [("pvar", "Ca", [self.box_pat(names)]), ("pvar", "Sq", [self.box_pat(names)])]
+            return ("match", self.fig_expr(env, d),
+                    [(("por", r.shuffle(alts)), self.int_expr(env + names, d)), (("pvar", "Dt", []), self.int_expr(env, d))])
+        if kind == 2:       # nested or inside a variant, as first or as later alternative
+            self.forms.add("or-pattern-nested")
+            x = self.fresh()
+            inner = ("pvar", "Wa", [("por", r.shuffle(self.sh_alts(x)))])
+            alts = [("pvar", "Wb", [("pid", x)]), inner]
+            if r.chance(1, 2):
+                alts.reverse()
+                self.forms.add("nested-or-first")
+            else:
+                self.forms.add("nested-or-later")
+            return ("match", ("raw2", "Wr.of(", [self.int_expr(env, d)], ")"),
+                    [(("por", alts), self.int_expr(env + [x], d)),
+                     (("pvar", "Wa", [("pvar", "Em", [])]), self.int_expr(env, d))])
+        if kind == 3:       # or nested inside a tuple pattern
+            self.forms.add("or-pattern-in-tuple")
+            names = self.binder_names(env, 1)
+            y = self.fresh()
+            p = ("ptuple", [("por", [("pvar", "Ca", [self.box_pat(names)]), ("pvar", "Sq", [self.box_pat(names)])]), ("pid", y)])
+            y2 = self.fresh()
+            return ("match", ("tuple", [self.fig_expr(env, d), self.int_expr(env, d)]),
+                    [(p, self.int_expr(env + names + [y], d)),
+                     (("ptuple", [("pvar", "Dt", []), ("pid", y2)]), self.int_expr(env + [y2], d))])
+        if kind == 4:       # top-level or over tuple alternatives
+            self.forms.add("or-pattern-tuples")
+            names = self.binder_names(env, 1)
+            y = self.fresh()
+            a1 = ("ptuple", [("pvar", "Ca", [self.box_pat(names)]), ("pid", y)])
+            a2 = ("ptuple", [("pvar", "Sq", [self.box_pat(names)]), ("pid", y)])
+            return ("match", ("tuple", [self.fig_expr(env, d), self.int_expr(env, d)]),
+                    [(("por", r.shuffle([a1, a2])), self.int_expr(env + names + [y], d)),
+                     (("ptuple", [("pvar", "Dt", []), ("pwild",)]), self.int_expr(env, d))])
+        # kind 5: variant + struct mixed: (Sh, Box)
+        self.forms.add("or-pattern-mixed")
+        x = self.fresh()
+        names = self.binder_names(env + [x], 1)
+        alts = [("ptuple", [a, self.box_pat(names)]) for a in self.sh_alts(x)]
+        return ("match", ("tuple", [self.sh_expr(env, d), ("raw2", "Box.mk(", [self.int_expr(env, d)], ")")]),
+                [(("por", r.shuffle(alts)), self.int_expr(env + [x] + names, d)),
+                 (("ptuple", [("pvar", "Em", []), ("pwild",)]), self.int_expr(env, d))])
+
+    # -------- lambdas for generic callees
+    def lam(self, env, d, nparams, wrap_ok=True):
+        r = self.rng
+        xs = [self.fresh() for _ in range(nparams)]
+        body = self.int_expr(env + xs, d)
+        if nparams == 2 and r.chance(1, 2):
+            body = ("bin", r.pick(["+", "-", "*"]), ("var", xs[0]), ("bin", "+", ("var", xs[1]), body))
+        ann = [(x, self.rich and r.chance(1, 6)) for x in xs]
+        l = ("lam", ann, body)
+        if wrap_ok and r.chance(1, 5):
+            self.forms.add("lambda-in-block-arg")
+            t = self.fresh()
+            return ("block", [("let", ("pid", t), self.int_expr(env, d), False)], l)
+        return l
 
     def int_expr(self, env, depth):
         r = self.rng
@@ -39,7 +182,7 @@ class Gen:
                 self.broke = True
                 return ("raw", "true")
             return ("lit", r.range(0, 9))
-        k = r.below(13)
+        k = r.below(22)
         d = depth - 1
         if k <= 1:
             return ("bin", r.pick(["+", "-", "*"]), self.int_expr(env, d), self.int_expr(env, d))
@@ -60,18 +203,22 @@ class Gen:
             a, b = self.fresh(), self.fresh()
             pat = ("ptuple", [("pid", a), ("pwild",) if r.chance(1, 4) else ("pid", b)])
             env2 = env + [a] + ([b] if pat[1][1][0] == "pid" else [])
-            return ("block", [("let", pat, ("tuple", [self.int_expr(env, d), self.int_expr(env, d)]), None)],
-                    self.int_expr(env2, d))
+            src = ("tuple", [self.int_expr(env, d), self.int_expr(env, d)])
+            if r.chance(1, 3):
+                self.forms.add("generic-call-tuple")
+                src = gc("Main.id", [src])
+            return ("block", [("let", pat, src, None)], self.int_expr(env2, d))
         if k == 5:
             self.forms.add("struct-pattern")
-            a, b = self.fresh(), self.fresh()
-            pat = ("pobj", [("fa", a if r.chance(2, 3) else None), ("fb", b)])
-            env2 = env + [pat[1][0][1] or "fa", b]
-            if pat[1][0][1] is None and "fa" in env:
-                pat = ("pobj", [("fa", a), ("fb", b)])
-                env2 = env + [a, b]
-            return ("block", [("let", pat, ("raw2", "Box.init(", [self.int_expr(env, d), self.int_expr(env, d)], ")"), None)],
-                    self.int_expr(env2, d))
+            names = self.binder_names(env, r.range(1, 2))
+            pat = self.box_pat(names)
+            src = ("raw2", "Box.init(", [self.int_expr(env, d), self.int_expr(env, d)], ")")
+            if self.rich and r.chance(1, 3):     # struct pattern nested in a tuple pattern
+                self.forms.add("struct-in-tuple-pattern")
+                w = self.fresh()
+                return ("block", [("let", ("ptuple", [pat, ("pid", w)]), ("tuple", [src, self.int_expr(env, d)]), None)],
+                        self.int_expr(env + names + [w], d))
+            return ("block", [("let", pat, src, None)], self.int_expr(env + names, d))
         if k == 6:
             self.forms.add("match-variant")
             x, w, h = self.fresh(), self.fresh(), self.fresh()
@@ -79,14 +226,14 @@ class Gen:
             return ("match", scrut, [(("pvar", "Ci", [("pid", x)]), self.int_expr(env + [x], d)),
                                      (("pvar", "Re", [("pid", w), ("pid", h)]), self.int_expr(env + [w, h], d)),
                                      (("pvar", "Em", []), self.int_expr(env, d))])
-        if k == 7:
-            self.forms.add("or-pattern")
-            x = self.fresh()
-            scrut = self.sh_expr(env, d)
-            return ("match", scrut, [(("por", [("pvar", "Ci", [("pid", x)]), ("pvar", "Re", [("pid", x), ("pwild",)])]),
-                                      self.int_expr(env + [x], d)),
-                                     (("pvar", "Em", []), self.int_expr(env, d))])
+        if k in (7, 12):
+            return self.or_match(env, d)
         if k == 8:
+            if self.rich and r.chance(1, 2):
+                self.forms.add("if-let-struct")
+                names = self.binder_names(env, 1)
+                return ("iflet", ("pvar", r.pick(["Ca", "Sq"]), [self.box_pat(names)]), self.fig_expr(env, d),
+                        self.int_expr(env + names, d), self.int_expr(env, d))
             self.forms.add("if-let")
             x = self.fresh()
             return ("iflet", ("pvar", "So", [("pid", x)]), ("raw2", "Opt.of(", [self.int_expr(env, d)], ")"),
@@ -96,7 +243,7 @@ class Gen:
             g, x = self.fresh(), self.fresh()
             body = self.int_expr(env + [x], d)     # may capture anything in env
             return ("block", [("let", ("pid", g), ("lam", [(x, True)], body), None)],
-                    ("call", ("var", g), [self.int_expr(env + [g], d) if False else self.int_expr(env, d)]))
+                    ("call", ("var", g), [self.int_expr(env, d)]))
         if k == 10:
             self.forms.add("lambda-arg")
             x = self.fresh()
@@ -104,13 +251,35 @@ class Gen:
                 y = self.fresh()
                 self.forms.add("nested-lambda")
                 inner = ("lam", [(y, False)], ("bin", "+", ("var", y), self.int_expr(env + [x, y], d)))
-                body = ("gcall", "Main.ap", [inner, ("var", x)])
+                body = gc("Main.ap", [inner, ("var", x)])
             else:
                 body = self.int_expr(env + [x], d)
-            return ("gcall", "Main.ap", [("lam", [(x, False)], body), self.int_expr(env, d)])
+            return gc("Main.ap", [("lam", [(x, False)], body), self.int_expr(env, d)])
         if k == 11:
             self.forms.add("generic-call")
-            return ("gcall", "Main.id", [self.int_expr(env, d)])
+            return gc("Main.id", [self.int_expr(env, d)], 1)
+        if k == 13:
+            self.forms.add("generic-lambda2")     # <T>(f: (int, T) -> int, s: T)
+            return gc("Main.comb", [self.lam(env, d, 2), self.int_expr(env, d)], 1)
+        if k == 14:
+            self.forms.add("generic-lambda2-AB")  # <A, B>(f: (A, B) -> int, a: A, b: B)
+            return gc("Main.app2", [self.lam(env, d, 2), self.int_expr(env, d), self.int_expr(env, d)], 2)
+        if k == 15:
+            if r.chance(1, 3):
+                self.forms.add("generic-method-reference")
+                return gc("Main.twice", [("raw", "Main.inc"), self.int_expr(env, d)], 1)
+            self.forms.add("generic-lambda1")
+            return gc("Main.twice", [self.lam(env, d, 1), self.int_expr(env, d)], 1)
+        if k == 16:
+            self.forms.add("generic-lambda-last")  # <A, B>(x: A, f: (A) -> B)
+            return gc("Main.pipe", [self.int_expr(env, d), self.lam(env, d, 1)], 2)
+        if k == 17:
+            self.forms.add("generic-method")       # Cell.init(e).map((x) -> ..).get()
+            inner = gc("Cell.init", [self.int_expr(env, d)], 1)
+            return ("post", gc("map", [self.lam(env, d, 1, wrap_ok=False)], 1, inner), ".get()")
+        if k == 18:
+            self.forms.add("generic-nested")
+            return gc("Main.comb", [self.lam(env, d, 2), gc("Main.id", [self.int_expr(env, d)], 1)], 1)
         self.forms.add("method")
         return ("raw2", "Box.mk(", [self.int_expr(env, d)], ").sum()")
 
@@ -122,37 +291,40 @@ class Gen:
             return ("raw2", "Sh.Re(", [self.int_expr(env, d), self.int_expr(env, d)], ")")
         return ("raw", "Sh.Em()")
 
+    def fig_expr(self, env, d):
+        return ("raw2", "Fig.of(", [self.int_expr(env, d), self.int_expr(env, d)], ")")
+
     def function(self, name, depth):
         nparams = self.rng.range(1, 3)
         ps = [self.fresh() for _ in range(nparams)]
         return {"name": name, "params": ps, "body": self.int_expr(list(ps), depth)}
 
 
-def gen_program(rng, broken=None, nfun=None, depth=None):
-    g = Gen(rng, broken)
+def gen_program(rng, broken=None, nfun=None, depth=None, rich_patterns=True):
+    g = Gen(rng, broken, rich_patterns)
     nfun = nfun or rng.range(1, 3)
     funs = [g.function(f"f{i}", depth or rng.range(2, 4)) for i in range(nfun)]
     args = [[rng.range(0, 20) for _ in f["params"]] for f in funs]
-    return {"funs": funs, "args": args, "classes": ["Box", "Sh", "Opt", "Main"], "split": None,
+    return {"funs": funs, "args": args, "classes": LIB_ORDER + ["Main"], "split": None,
             "forms": sorted(g.forms), "broken": broken if g.broke else None}
 
 
 # ---------------------------------------------------------------- rendering
 
-def pat_s(p):
+def pat_s(p, top=True):
     k = p[0]
     if k == "pid":
         return p[1]
     if k == "pwild":
         return "_"
     if k == "ptuple":
-        return "(" + ", ".join(pat_s(q) for q in p[1]) + ")"
+        return "(" + ", ".join(pat_s(q, False) for q in p[1]) + ")"
     if k == "pobj":
-        return "{ " + ", ".join(f if v is None else f"{f} as {v}" for f, v in p[1]) + " }"
+        return "{ " + ", ".join(f if v is None else f"{f} as {pat_s(v, False)}" for f, v in p[1]) + " }"
     if k == "pvar":
-        return p[1] + ("(" + ", ".join(pat_s(q) for q in p[2]) + ")" if p[2] else "")
+        return p[1] + ("(" + ", ".join(pat_s(q, False) for q in p[2]) + ")" if p[2] else "")
     if k == "por":
-        return " | ".join(pat_s(q) for q in p[1])
+        return " | ".join(pat_s(q, False) for q in p[1])
     raise ValueError(k)
 
 
@@ -187,7 +359,11 @@ def expr_s(e):
     if k == "call":
         return expr_s(e[1]) + "(" + ", ".join(expr_s(x) for x in e[2]) + ")"
     if k == "gcall":
-        return e[1] + ("<int>" if len(e) > 3 and e[3] else "") + "(" + ", ".join(expr_s(x) for x in e[2]) + ")"
+        targs = "<" + ", ".join(["int"] * e[4]) + ">" if e[3] and e[4] else ""
+        pre = expr_s(e[5]) + "." if e[5] is not None else ""
+        return pre + e[1] + targs + "(" + ", ".join(expr_s(x) for x in e[2]) + ")"
+    if k == "post":
+        return expr_s(e[1]) + e[2]
     if k == "paren":
         return "(" + expr_s(e[1]) + ")"
     if k == "wrap":
@@ -198,14 +374,17 @@ def expr_s(e):
 def main_class(p):
     ms = []
     for f in p["funs"]:
-        ms.append(("f", f"  function {f['name']}({', '.join(x + ': int' for x in f['params'])}): int = {expr_s(f['body'])}"))
-    ms.append(("id", "  function <T> id(x: T): T = x"))
-    ms.append(("ap", "  function ap(g: (int) -> int, x: int): int = g(x)"))
+        ms.append(f"  function {f['name']}({', '.join(x + ': int' for x in f['params'])}): int = {expr_s(f['body'])}")
+    ms += HELPERS
     calls = "".join(f" Process.println(Str.fromInt(Main.{f['name']}({', '.join(str(a) for a in args)})));"
                     for f, args in zip(p["funs"], p["args"]))
-    ms.append(("main", "  function main(): unit = {" + calls + " }"))
+    ms.append("  function main(): unit = {" + calls + " }")
     order = p.get("member_order") or list(range(len(ms)))
-    return "class Main {\n" + "\n".join(ms[i][1] for i in order) + "\n}"
+    return "class Main {\n" + "\n".join(ms[i] for i in order) + "\n}"
+
+
+def n_members(p):
+    return len(p["funs"]) + len(HELPERS) + 1
 
 
 def render(p):
@@ -214,8 +393,14 @@ def render(p):
     if p["split"]:
         moved = [c for c in p["classes"] if c in p["split"]]
         kept = [c for c in p["classes"] if c not in p["split"]]
-        lib_imports = ""
-        return {"Lib": lib_imports + "\n".join(texts[c] for c in moved),
+        # a moved class may mention another moved / kept library class: Fig -> Box, Wr -> Sh
+        deps = {"Fig": ["Box"], "Wr": ["Sh"]}
+        need = sorted({d for c in moved for d in deps.get(c, []) if d not in moved})
+        if need:      # keep it simple: dependencies move together
+            moved += need
+            kept = [c for c in kept if c not in need]
+        back = sorted({c for k in kept for c in deps.get(k, []) if c in moved})
+        return {"Lib": "\n".join(texts[c] for c in moved),
                 "Main": "import { " + ", ".join(moved) + " } from Lib;\n" + "\n".join(texts[c] for c in kept)}
     return {"Main": "\n".join(texts[c] for c in p["classes"])}
 
@@ -246,13 +431,16 @@ def map_expr(e, f):
     if k == "call":
         return f((k, map_expr(e[1], f), [map_expr(x, f) for x in e[2]]))
     if k == "gcall":
-        return f((k, e[1], [map_expr(x, f) for x in e[2]]) + tuple(e[3:]))
+        pre = map_expr(e[5], f) if e[5] is not None else None
+        return f((k, e[1], [map_expr(x, f) for x in e[2]], e[3], e[4], pre))
+    if k == "post":
+        return f((k, map_expr(e[1], f), e[2]))
     if k in ("paren", "wrap"):
         return f((k, map_expr(e[1], f)))
     if k == "ptuple":
         return f((k, [map_expr(q, f) for q in e[1]]))
     if k == "pobj":
-        return f(e)
+        return f((k, [(fld, None if v is None else map_expr(v, f)) for fld, v in e[1]]))
     if k == "pvar":
         return f((k, e[1], [map_expr(q, f) for q in e[2]]))
     if k == "por":
@@ -267,16 +455,8 @@ def rename_name(p, old, new):
             return (e[0], new)
         if e[0] == "lam":
             return ("lam", [(new if x == old else x, a) for x, a in e[1]], e[2])
-        if e[0] == "pobj":
-            out = []
-            for fld, v in e[1]:
-                if v == old:
-                    out.append((fld, new))
-                elif v is None and fld == old:
-                    out.append((fld, new))
-                else:
-                    out.append((fld, v))
-            return ("pobj", out)
+        if e[0] == "pobj":      # shorthand `{ f }` binds f: renaming introduces `f as new`
+            return ("pobj", [(fld, ("pid", new)) if (v is None and fld == old) else (fld, v) for fld, v in e[1]])
         return e
     q = dict(p)
     q["funs"] = [{"name": fn["name"], "params": [new if x == old else x for x in fn["params"]],
@@ -292,9 +472,66 @@ def local_names(p):
         if e[0] == "lam":
             names.extend(x for x, _ in e[1])
         if e[0] == "pobj":
-            names.extend(v or fld for fld, v in e[1])
+            names.extend(fld for fld, v in e[1] if v is None)
         return e
     for fn in p["funs"]:
         names.extend(fn["params"])
         map_expr(fn["body"], f)
     return sorted(set(names))
+
+
+# ---------------------------------------------------------------- annotation sites (C13)
+
+def annotation_sites(p):
+    """every place where an inferred type can be made explicit, individually addressable:
+    ('lam', i, j)  = parameter j of the i-th lambda (pre-order per function list order)
+    ('let', i)     = the i-th `let x = e` with a plain identifier pattern and a non-lambda value
+    ('targs', i)   = the i-th generic call without explicit type arguments"""
+    sites = []
+    cnt = {"lam": 0, "let": 0, "targs": 0}
+    def f(e):
+        if e[0] == "lam":
+            for j, (_, ann) in enumerate(e[1]):
+                if not ann:
+                    sites.append(("lam", cnt["lam"], j))
+            cnt["lam"] += 1
+        elif e[0] == "block":
+            for s in e[1]:
+                if s[1][0] == "pid" and s[2][0] != "lam":
+                    if not s[3]:
+                        sites.append(("let", cnt["let"]))
+                    cnt["let"] += 1
+        elif e[0] == "gcall" and e[4] > 0:
+            if not e[3]:
+                sites.append(("targs", cnt["targs"]))
+            cnt["targs"] += 1
+        return e
+    for fn in p["funs"]:
+        map_expr(fn["body"], f)
+    return sites
+
+
+def annotate(p, chosen):
+    """make the inferred type explicit at exactly the sites in `chosen`"""
+    chosen = set(chosen)
+    cnt = {"lam": 0, "let": 0, "targs": 0}
+    def f(e):
+        if e[0] == "lam":
+            i = cnt["lam"]; cnt["lam"] += 1
+            return ("lam", [(x, ann or ("lam", i, j) in chosen) for j, (x, ann) in enumerate(e[1])], e[2])
+        if e[0] == "block":
+            out = []
+            for s in e[1]:
+                if s[1][0] == "pid" and s[2][0] != "lam":
+                    i = cnt["let"]; cnt["let"] += 1
+                    out.append((s[0], s[1], s[2], True if ("let", i) in chosen else s[3]))
+                else:
+                    out.append(s)
+            return ("block", out, e[2])
+        if e[0] == "gcall" and e[4] > 0:
+            i = cnt["targs"]; cnt["targs"] += 1
+            return ("gcall", e[1], e[2], e[3] or ("targs", i) in chosen, e[4], e[5])
+        return e
+    q = dict(p)
+    q["funs"] = [{"name": fn["name"], "params": fn["params"], "body": map_expr(fn["body"], f)} for fn in p["funs"]]
+    return q
